@@ -467,6 +467,146 @@ def h_history(ctx, n, prefix=(), real_noise=False, extra=()):
     return obs
 
 
+NET_EVENTS = ("connect-request", "connect-refused-at-once", "connect-completes", "connect-fails", "send", "writable", "incoming", "incoming-handler-raises",
+              "peer-close", "disconnect-request")
+
+
+def h_network(ctx, n, prefix=()):
+    """the real network layer with the real asyncore dispatcher over a socket double (checks/netdouble.py): histories of connection events
+    incl. back-pressure (a send accepted in part or not at all), handlers that raise, refused and failing connects.  Per connection the
+    peer must have received a prefix of exactly what was sent while that connection was up -- in order, nothing stale, nothing twice --
+    and all of it once the socket has drained; announcements and the connected flag follow the same ghost model as the histories above"""
+    import asyncore
+    from checks import netdouble as ND
+    import yowsup.layers as L
+    from yowsup.stacks.yowstack import YowStack
+    from yowsup.layers.network import YowNetworkLayer
+    w = ND.World()
+    log = []
+
+    class Probe(L.YowLayer):
+        def __init__(self):
+            super(Probe, self).__init__()
+            self.got = []
+
+        def receive(self, data):
+            if bytes(data).startswith(b"BOOM"):
+                raise RuntimeError("an upper layer fails on this chunk")
+            self.got.append(bytes(data))
+
+        def send(self, data):
+            self.toLower(data)
+
+        @L.EventCallback(YowNetworkLayer.EVENT_STATE_CONNECTED)
+        def on_up(self, ev):
+            log.append("up")
+
+        @L.EventCallback(YowNetworkLayer.EVENT_STATE_DISCONNECTED)
+        def on_down(self, ev):
+            log.append("down")
+    by_event = ctx.flag("connect_requests_by_event")
+    with ND.Patched(w):
+        st = YowStack((YowNetworkLayer, Probe), reversed=False)
+        net, probe = st.getLayer(0), st.getLayer(1)
+        st.setProp(YowNetworkLayer.PROP_ENDPOINT, ("e1.whatsapp.net", 443))
+        st.setProp(YowNetworkLayer.PROP_DISPATCHER, YowNetworkLayer.DISPATCHER_ASYNCORE)
+        g = dict(up=False, pending=False, sock=None)
+        expected = {}            # socket number -> bytes sent while that connection was up
+        obs, hist, k = [], [], 0
+        for step in range(n):
+            disp = net._dispatcher
+            sock = w.sockets[g["sock"]] if g["sock"] is not None else None
+            backlog = bool(getattr(disp, "out_buffer", b"")) if disp is not None else False
+            possible = []
+            for e in NET_EVENTS:
+                if e in ("connect-request", "connect-refused-at-once") and not g["up"] and not g["pending"]:
+                    possible.append(e)
+                elif e in ("connect-completes", "connect-fails") and g["pending"]:
+                    possible.append(e)
+                elif e in ("send", "incoming", "incoming-handler-raises", "peer-close") and g["up"]:
+                    possible.append(e)
+                elif e == "writable" and g["up"] and backlog:
+                    possible.append(e)
+                elif e == "disconnect-request" and (g["up"] or g["pending"]):
+                    possible.append(e)
+            possible.append("stop")
+            ev = (prefix[step] if prefix[step] in possible else "stop") if step < len(prefix) else ctx.choice("e%d" % step, possible)
+            if ev == "stop":
+                break
+            hist.append(ev)
+            mark, n_socks, raised = len(log), len(w.sockets), None
+            was_up, was_pending = g["up"], g["pending"]
+            try:
+                if ev in ("connect-request", "connect-refused-at-once"):
+                    w.connect_mode = "gaierror" if ev == "connect-refused-at-once" else "later"
+                    if by_event:
+                        st.broadcastEvent(L.YowLayerEvent(YowNetworkLayer.EVENT_STATE_CONNECT))
+                    else:
+                        net.getLayerInterface().connect()
+                elif ev == "connect-completes":
+                    sock.established = True
+                    asyncore.write(disp)
+                elif ev == "connect-fails":
+                    sock.so_error = 111
+                    asyncore.write(disp)
+                elif ev == "send":
+                    k += 1
+                    payload = (b"<%02d>" % k) * 12
+                    accept = ctx.choice("accepted%d" % step, ["all", "half", "nothing"])
+                    sock.budget = [] if accept == "all" else [len(payload) // 2 if accept == "half" else 0, 0, 0, 0]
+                    expected[sock.no] = expected.get(sock.no, b"") + payload
+                    probe.send(payload)
+                elif ev == "writable":
+                    sock.budget = []
+                    asyncore.write(disp)
+                elif ev == "incoming":
+                    sock.rx.append(b"data%d" % step)
+                    asyncore.read(disp)
+                elif ev == "incoming-handler-raises":
+                    sock.rx.append(b"BOOM%d" % step)
+                    asyncore.read(disp)
+                elif ev == "peer-close":
+                    sock.peer_closed = True
+                    asyncore.read(disp)
+                elif ev == "disconnect-request":
+                    st.broadcastEvent(L.YowLayerEvent(YowNetworkLayer.EVENT_STATE_DISCONNECT))
+            except Exception as e:
+                raised = e
+            run_loop(st)
+            new = log[mark:]
+            tag = "#%d %s" % (step, ev)
+            ups, downs = new.count("up"), new.count("down")
+            if ev == "connect-request":
+                obs.append((tag + ": a connect request while no connection exists or is being made opens a new socket", len(w.sockets) == n_socks + 1 and raised is None))
+                g.update(pending=True, sock=len(w.sockets) - 1)
+            elif ev == "connect-refused-at-once":
+                obs.append((tag + ": the refused attempt is reported to the caller", raised is not None))
+            elif raised is not None:
+                obs.append((tag + ": no exception (%s: %s)" % (type(raised).__name__, str(raised)[:60]), False))
+            if ev == "connect-completes":
+                obs.append((tag + ": announced up exactly once", ups == 1 and downs == 0))
+                g.update(up=True, pending=False)
+            else:
+                obs.append((tag + ": no spurious connected announcement", ups == 0))
+            if ev in ("incoming-handler-raises", "peer-close", "disconnect-request", "connect-fails"):
+                obs.append((tag + (": announced down exactly once" if was_up else ": at most one down announcement for a failed attempt"), downs == 1 if was_up else downs <= 1))
+                g.update(up=False, pending=False)
+            elif ev != "connect-refused-at-once":
+                obs.append((tag + ": no spurious disconnected announcement", downs == 0))
+            if ev == "incoming":
+                obs.append((tag + ": the chunk is handed up once", probe.got[-1:] == [b"data%d" % step]))
+            obs.append((tag + ": connected flag agrees with the announcements", bool(net.connected) == g["up"]))
+            for s_ in w.sockets:
+                want = expected.get(s_.no, b"")
+                got = bytes(s_.written)
+                obs.append((tag + ": peer of connection #%d has received a prefix of what was sent on it, in order (%d of %d bytes)" % (s_.no, len(got), len(want)), want.startswith(got)))
+            if ev == "writable" and g["up"]:
+                obs.append((tag + ": once the socket drains everything sent on this connection has arrived", bytes(sock.written) == expected.get(sock.no, b"")))
+        ctx.note("history %s" % hist)
+        obs.append(("nothing was ever written to a socket that is closed or not connected (%s)" % w.violations[:1], not w.violations))
+        return obs
+
+
 def cases(tier):
     q = tier == "quick"
     up = ("connect-request", "connected")
@@ -491,6 +631,12 @@ def cases(tier):
     cs.append(dict(name="history+[prefix=up+success+ping-tick+peer-close+up+success,foreign pongs,len<=%d]" % (10 if q else 12), fn=h_history,
                    args=(10 if q else 12, up + ("success", "ping-tick", "peer-close") + up + ("success",), False, ("app-ping", "app-pong", "stale-pong")),
                    max_paths=2000000, timeout_s=900 if q else 3400, keep_samples=8, weight=150))
+    # the real network layer and asyncore dispatcher over a socket double
+    nup = ("connect-request", "connect-completes")
+    cs.append(dict(name="network[asyncore dispatcher,len<=%d]" % (4 if q else 5), fn=h_network, args=(4 if q else 5,), max_paths=2000000, timeout_s=900 if q else 3400, keep_samples=8, weight=100))
+    for third in ("send", "peer-close", "disconnect-request", "incoming-handler-raises"):
+        cs.append(dict(name="network[asyncore dispatcher,prefix=up+%s,len<=%d]" % (third, 6 if q else 8), fn=h_network, args=(6 if q else 8, nup + (third,)), max_paths=2000000,
+                       timeout_s=900 if q else 3400, keep_samples=8, weight=150))
     if not q:
         for fourth in ("ping-tick", "peer-close", "stream-error-ack", "disconnect-request"):
             cs.append(dict(name="history[prefix=up+success+%s,len<=11]" % fourth, fn=h_history, args=(11, up + ("success", fourth)), max_paths=4000000, timeout_s=3400, keep_samples=6, weight=400))
